@@ -109,6 +109,13 @@ fn main_alphabet() -> Vec<S> {
         make("y", bin(Op::Sub, x(), num("1"))),
         // a hoisted function that reads a variable whose declaration has not run yet
         make("y", call("lr", vec![])),
+        // statically accepted operand pairs / arguments that the evaluator rejects
+        make("y", bin(Op::Add, st("a"), E::Bool(true))),
+        make("y", bin(Op::Or, E::Null, num("5"))),
+        make("y", meth(st("abc"), "find", vec![num("5")])),
+        make("y", E::Not(Box::new(E::Null))),
+        // a pure call that never returns
+        make("y", call("inf", vec![])),
     ]
 }
 
@@ -125,6 +132,7 @@ fn programs(body_len: u32, main_len: u32) -> Gen<Vec<S>> {
             func("r2", &[], vec![S::Ret(Some(call("r", vec![])))]),
             func("r3", &[], vec![S::Ret(Some(call("r2", vec![])))]),
             func("mw", &[], vec![S::If(bin(Op::Gt, var("x"), num("100")), vec![set("x", num("0"))], None)]),
+            func("inf", &[], vec![S::Ret(Some(call("inf", vec![])))]),
             func("f", &["p"], body),
         ];
         p.extend(main);
@@ -347,7 +355,9 @@ pub fn check_text(ctx: &Ctx, text: &str) -> Outcome {
             }
         }
     }
-    if is_stack(&m1.end) || is_stack(&m3.end) {
+    // Both overflow: how much was printed before depends on native frame sizes, not compared.
+    // Only one overflows: the plan added or removed a run-time error (judged below).
+    if is_stack(&m1.end) && is_stack(&m3.end) {
         return Outcome::ok("skip:stack-overflow", false);
     }
     // (1) pruning in isolation
@@ -365,7 +375,7 @@ pub fn check_text(ctx: &Ctx, text: &str) -> Outcome {
     // as shipped
     let m0 = drive::run_pipeline(ctx, text, M0, RunOpts::default());
     let m2 = drive::run_pipeline(ctx, text, M2, RunOpts::default());
-    if !is_stack(&m0.end) && !is_stack(&m2.end) && m0.behaviour() != m2.behaviour() {
+    if !(is_stack(&m0.end) && is_stack(&m2.end)) && m0.behaviour() != m2.behaviour() {
         if m0.behaviour() != m1.behaviour() || m2.behaviour() != m3.behaviour() {
             return Outcome::ok("attributed-to-reclamation(see C02)", false);
         }
